@@ -24,9 +24,10 @@ def main():
         return thorough.run(pid, seed)
     rc, _ = runner.run_property(pid, a.tier, props.rules_for(pid), seed=seed, record_floors=a.record_floors,
                                 replay_key=replay_key)
-    if pid in ("C03", "C06", "C10", "C20") and not a.replay:
-        # the taint/bounds analysis is the most delicate engine: its positive/negative twins
-        # (engine/fixtures) are re-checked on every run; a mismatch means the check is broken
+    if not a.replay:
+        # the shared analyses (taint/bounds, boolpath, result continuations, dispatch tables) and the
+        # rules whose expected count on ferrous is zero have positive/negative twins in
+        # engine/fixtures; they are re-checked on every run: a mismatch means the check is broken
         try:
             import selftest
             n, fails = selftest.fixtures()
